@@ -23,8 +23,8 @@ def run(c):
     total, dup_free = 0, 0
     classes = collections.Counter()
     for vi, (sched, slot, keys, empty) in enumerate([("gate", 2, 3, False), ("gate", 4, 0, True), ("free", 2, 0, True), ("free", 4, 4, False)]):
-        conc = dict(workload="uniqueadd", txns=3, keys=keys, slot=slot, sched=sched, max_step=8, empty=empty)
-        traces, _ = _conc.run_conc(c, binp, "u%d%s" % (vi, sched), c.pick(15, 150), conc, child=1)
+        conc = dict(workload="uniqueadd", txns=(2 if empty else 3), keys=keys, slot=slot, sched=sched, max_step=8, empty=empty)
+        traces, _ = _conc.run_conc(c, binp, "u%d%s" % (vi, sched), c.pick(8, 100), conc, child=1, timeout=3000)
         hists, outs, ok_idx = [], [], []
         for i, (n, h, evs) in enumerate(traces):
             dup = None
